@@ -1,6 +1,7 @@
 package lib
 
 import (
+	"io"
 	"os"
 
 	"github.com/ipfs/go-cid"
@@ -9,12 +10,15 @@ import (
 
 // CarRoot prints the root CID in a car
 func CarRoot(file string) (roots []cid.Cid, err error) {
-	inStream := os.Stdin
+	// Standard input may be a pipe: an *os.File whose Seek method fails. Hide
+	// everything but Read so that a CARv2 header's padding is skipped by reading.
+	var inStream io.Reader = struct{ io.Reader }{os.Stdin}
 	if len(file) >= 1 {
-		inStream, err = os.Open(file)
+		f, err := os.Open(file)
 		if err != nil {
 			return nil, err
 		}
+		inStream = f
 	}
 
 	rd, err := carv2.NewBlockReader(inStream)
